@@ -428,11 +428,23 @@ class C17(Prop):
             'drop; clean-up never deletes an entry accessed within the limit nor modifies a pickle. Non-trivial: the fault was reached '
             '(injected call executed / on-disk state changed). Distinct by (module, fault).')
     assumptions = ['runs as root: permission bits are not enforced, read-only directories are modelled by EACCES injection',
-                   'two real processes are modelled by the deterministic writer/reader interleaving (thorough adds none beyond that)']
+                   'two real processes are modelled by the deterministic writer/reader interleaving (thorough adds none beyond that)',
+                   'workers run under an 8 GiB address-space limit: allocation bombs of corrupted pickles show as MemoryError (which parse() must survive), not as an out-of-memory kill of the machine']
     budgets = {'quick': 2000, 'thorough': 60000}
     time_caps = {'quick': 200, 'thorough': 1500}
     shrink_fields = ()
     min_nontrivial_fraction = 0.05
+    track_cases = True      # the engine keeps the case being evaluated on tmpfs, so a killed worker can be attributed
+
+    def setup_shard(self, tier, seed, shard):
+        # A flipped byte in a pickle can turn a memo index / length into a huge number: the C unpickler then allocates (and
+        # zero-fills) tens of GB before failing - seen as a 21 GB worker killed by the OOM killer.  With an address-space
+        # limit the same allocation fails at once with MemoryError, which parse() has to survive like any other corrupt file.
+        import resource
+        lim = 8 << 30
+        soft, hard = resource.getrlimit(resource.RLIMIT_AS)
+        if soft == resource.RLIM_INFINITY or soft > lim:
+            resource.setrlimit(resource.RLIMIT_AS, (lim, hard))
 
     def strategy(self, tier):
         fault = st.one_of(
